@@ -15,6 +15,10 @@ op lines
   clustername <hex> / usize <hex> / atoi <hex> / utf8 <hex>
   setrepl <arg>… / setmeta <arg>…   `ReplicatorMeta::from_resp` / `ProxyClusterMeta::from_resp` on `UMCTL SETREPL|SETCLUSTER <args>`
                              (arg = hex, `~` = nil bulk) → done big=<0|1> | PANIC   (big: more than 64·bytes + 4096 requested)
+  hashtag <hex>              `get_hash_tag` / `generate_slot` / `generate_lock_slot` → tag=<hex> slot=<n> lock=<n> | PANIC
+  cfgset <field> <value>     `ServerProxyConfig::set_value` then three `SlowRequestLogger::limit_rate` calls → set=<ok|err|nonutf8> limiter=<ok|PANIC>
+  cfgconn <field> <value>    `CONFIG SET` on a fresh `server_proxy`, then ordinary commands on the same, on an established and on a
+                             fresh connection → set=<ok|err> same=<alive 3|closed|…> est=<…> fresh=<…>
   rangemap <s-e>…            `RangeMap::from` on the list as given → ok contains=<n> | PANIC
   setcluster t|z <s-e>…      `UMCTL SETCLUSTER` (textual | compressed) with one MIGRATING range list of a local
                              node, through the real `server_proxy` → ok | closed | stalled
@@ -122,6 +126,7 @@ def connOp (st : St) (b : Bytes) : String :=
   let r := stream c b
   if r.maxAlloc * st.es ≥ st.rlimit || r.height > st.stack then "aborted"
   else if r.end == .closed || r.end == .panicked then "closed"
+  else if r.packets.any (fun pkt => commandNewPanics Um.Gen.Hostile.hashTagEndAfterBegin (cmdOf pkt.2 pkt.1)) then "closed"
   else if st.phase == "slow" && r.packets.any (slowPanics h) then "closed"
   else if r.packets.any (stalls st h) then "stalled"
   else if r.end == .pending then s!"pending {r.packets.length}"
@@ -196,6 +201,26 @@ def step (st : St) (toks : List String) : St × String :=
     -- without panicking and without requesting memory beyond a constant multiple of the arguments
     -- (`umctlCountPrealloc = false`, theorem `C16_umctl_counts`)
     (st, if Um.Gen.Hostile.umctlCountPrealloc then "done big=?" else "done big=0")
+  | ["hashtag", h] =>
+    match bytesOfHex h with
+    | some k =>
+      match hashTagChecked Um.Gen.Hostile.hashTagEndAfterBegin k with
+      | some t => (st, s!"tag={hexOfBytes t} slot={(Um.Crc16.crc16Xmodem t).toNat % Um.Crc16.SLOT_NUM} lock={Um.Crc16.lockSlotOf k}")
+      | none => (st, "PANIC")
+    | none => (st, "bad-op")
+  | ["cfgset", f, v] | ["cfgconn", f, v] =>
+    match bytesOfHex f, bytesOfHex v with
+    | some fb, some vb =>
+      let inproc := toks.head? == some "cfgset"
+      if !utf8Valid fb || !utf8Valid vb then (st, if inproc then "nonutf8" else "set=err same=alive 3 est=alive 1 fresh=alive 2")
+      else
+        let (store, ok) := configSet {} fb vb
+        let dead := (limiterDecision Um.Gen.Hostile.rateLimiterClamped store.sampleRate 1).isNone
+        let setS := if ok then "ok" else "err"
+        if inproc then (st, s!"set={setS} limiter={if dead then "PANIC" else "ok"}")
+        else if dead then (st, s!"set={setS} same=closed est=closed fresh=closed")
+        else (st, s!"set={setS} same=alive 3 est=alive 1 fresh=alive 2")
+    | _, _ => (st, "bad-op")
   | "rangemap" :: rest =>
     match rest.mapM rangeOf with
     | some rs =>
